@@ -1,4 +1,6 @@
 import IrefVerif.Lemmas.AuthValid
+import IrefVerif.Lemmas.AuthMutModel
+import IrefVerif.Lemmas.ValidWF
 
 /-!
 # C11 — authority editing changes one sub-component
@@ -6,13 +8,21 @@ import IrefVerif.Lemmas.AuthValid
 Specification level, for both families: replacing the user info, host or port of a valid
 authority by a valid value (or removing it) gives a valid authority whose decomposition is the
 old one with exactly that field replaced — the other two sub-components read back identical.
-The handle model (`Model.AuthorityMut`, with its `start`/`end` window and checked `usize`
-subtractions) is compared with the real handle after every step of every edit sequence by the
-`authmut` stream; `Oracle.amStep` judges the implementation's views with `splitAuth`.
+Model level (`handle_step`, `handle_history`, `handle_in_reference`): on the *model of the Rust
+handle* (`Model.AuthorityMut`, with its `start`/`end` window, the scans `find_user_info` /
+`find_host` / `find_port` inside the enclosing buffer and the checked `usize` subtractions), for
+**every finite sequence** of `set_userinfo` / `set_host` / `set_port` calls with valid arguments,
+starting from the handle of any valid reference that has an authority: no call panics, after
+every call the window is exactly the new authority text, the octets before and after the
+window — scheme, path, query, fragment — are untouched, and the sub-components are the old ones
+with exactly the edited fields replaced (so further edits through the same handle behave as on
+a fresh one: the invariant is the same).  The model is compared with the real handle after every
+step of every edit sequence by the `authmut` stream; `Oracle.amStep` judges the implementation's
+views with `splitAuth`.
 -/
 
 namespace IrefVerif.Props.C11
-open IrefVerif IrefVerif.Spec IrefVerif.Lemmas
+open IrefVerif IrefVerif.Spec IrefVerif.Lemmas IrefVerif.Model
 
 /-- replacing one field of valid sub-components by a valid value keeps them valid -/
 theorem valid_set_userinfo (G : Grammar) (A : AuthParts) (hv : ValidAuth G A) (v : Option Text)
@@ -58,6 +68,103 @@ theorem set_port_reads_back (G : Grammar) (ok : Grammar.OkAuth G) (a : Text)
   have hv' := valid_set_port G (splitAuth a) hv v hval
   exact ⟨(authority_iff G _).mpr ⟨A', rfl, hv'⟩,
     splitAuth_recompose A' (wfa_of_valid G ok A' hv').toWFA⟩
+
+/-! ## the model of the handle, for every sequence of edits -/
+
+inductive AmOp
+  | ui (v : Option Text)
+  | host (v : Text)
+  | port (v : Option Text)
+
+def AmOp.Valid (G : Grammar) : AmOp → Prop
+  | .ui v => ∀ u, v = some u → RE.Matches G.userinfo u
+  | .host v => RE.Matches G.host v
+  | .port v => ∀ p, v = some p → RE.Matches Rfc3986.port p
+
+/-- the model of one call (`none` = panic) -/
+def amStep (h : AuthorityMut) : AmOp → Option AuthorityMut
+  | .ui v => h.set_userinfo v
+  | .host v => h.set_host v
+  | .port v => h.set_port v
+
+/-- the specified effect on the sub-components -/
+def amApply (A : AuthParts) : AmOp → AuthParts
+  | .ui v => { A with userinfo := v }
+  | .host v => { A with host := v }
+  | .port v => { A with port := v }
+
+def amRun : AuthorityMut → List AmOp → Option AuthorityMut
+  | h, [] => some h
+  | h, op :: ops => match amStep h op with
+    | some h' => amRun h' ops
+    | none => none
+
+/-- **one edit**: no panic; the window is the new authority; everything around it is untouched;
+the sub-components are valid again -/
+theorem handle_step (G : Grammar) (ok : Grammar.OkAuth G) (h : AuthorityMut) (pre post : Text) (A : AuthParts)
+    (inv : HInv h pre A post) (hv : ValidAuth G A) (op : AmOp) (hop : op.Valid G) :
+    ∃ h', amStep h op = some h' ∧ HInv h' pre (amApply A op) post ∧ ValidAuth G (amApply A op) := by
+  have wf := wfa_of_valid G ok A hv
+  cases op with
+  | ui v =>
+    obtain ⟨h', e, i'⟩ := set_userinfo_inv h pre A post inv wf v
+    exact ⟨h', e, i', valid_set_userinfo G A hv v hop⟩
+  | host v =>
+    obtain ⟨h', e, i'⟩ := set_host_inv h pre A post inv wf v
+    exact ⟨h', e, i', valid_set_host G A hv v hop⟩
+  | port v =>
+    obtain ⟨h', e, i'⟩ := set_port_inv h pre A post inv wf v
+    exact ⟨h', e, i', valid_set_port G A hv v hop⟩
+
+/-- **every finite sequence of edits through one handle** -/
+theorem handle_history (G : Grammar) (ok : Grammar.OkAuth G) (ops : List AmOp) (h : AuthorityMut)
+    (pre post : Text) (A : AuthParts) (inv : HInv h pre A post) (hv : ValidAuth G A)
+    (hops : ∀ op ∈ ops, op.Valid G) :
+    ∃ h', amRun h ops = some h' ∧ HInv h' pre (ops.foldl amApply A) post ∧
+      ValidAuth G (ops.foldl amApply A) := by
+  induction ops generalizing h A with
+  | nil => exact ⟨h, rfl, inv, hv⟩
+  | cons op ops ih =>
+    obtain ⟨h1, e1, i1, v1⟩ := handle_step G ok h pre post A inv hv op (hops op List.mem_cons_self)
+    obtain ⟨h2, e2, i2, v2⟩ := ih h1 (amApply A op) i1 v1 (fun o ho => hops o (List.mem_cons_of_mem _ ho))
+    exact ⟨h2, by simp only [amRun, e1, e2], i2, v2⟩
+
+/-- the handle of a valid reference satisfies the invariant: the window found by
+`authority_mut()` is the authority, between the scheme and the path -/
+theorem handle_of_reference (G : Grammar) (ok : Grammar.Ok G) (oka : Grammar.OkAuth G) (w a : Text)
+    (h : RE.Matches G.reference w) (ha : (split w).authority = some a) :
+    ∃ hd, Ref.authority_mut w = some hd ∧
+      HInv hd (schemeText (split w).scheme ++ [cSlash, cSlash]) (splitAuth a)
+        ((split w).path ++ queryText (split w).query ++ fragText (split w).fragment) ∧
+      ValidAuth G (splitAuth a) := by
+  obtain ⟨hv, wf⟩ := split_valid G ok w h
+  obtain ⟨_, hva, hra⟩ := authority_parts G oka a (hv.authority a ha)
+  have hfull := find_authority_recompose_full (split w) wf
+  rw [Lemmas.recompose_split] at hfull
+  simp only [ha] at hfull
+  refine ⟨{ data := w, start := (schemeText (split w).scheme).length + 2,
+            «end» := (schemeText (split w).scheme).length + 2 + a.length }, ?_, ?_, hva⟩
+  · simp only [Ref.authority_mut, hfull, Parse.Found.toOption, Option.map_some]
+  refine ⟨?_, by simp, by simp [hra]⟩
+  have := (Lemmas.recompose_split w).symm
+  rw [recompose_eq, ha] at this
+  rw [hra]
+  simpa [authText, List.append_assoc] using this
+
+/-- **end to end**: any sequence of valid handle edits on a valid reference leaves exactly
+`recompose` of the old components with the authority replaced by the edited one -/
+theorem handle_in_reference (G : Grammar) (ok : Grammar.Ok G) (oka : Grammar.OkAuth G) (w a : Text)
+    (h : RE.Matches G.reference w) (ha : (split w).authority = some a) (ops : List AmOp)
+    (hops : ∀ op ∈ ops, op.Valid G) :
+    ∃ hd hd', Ref.authority_mut w = some hd ∧ amRun hd ops = some hd' ∧
+      hd'.data = recompose { split w with authority := some (recomposeAuth (ops.foldl amApply (splitAuth a))) } ∧
+      hd'.as_authority = recomposeAuth (ops.foldl amApply (splitAuth a)) ∧
+      RE.Matches G.authority (recomposeAuth (ops.foldl amApply (splitAuth a))) := by
+  obtain ⟨hd, e0, i0, v0⟩ := handle_of_reference G ok oka w a h ha
+  obtain ⟨hd', e1, i1, v1⟩ := handle_history G oka ops hd _ _ _ i0 v0 hops
+  refine ⟨hd, hd', e0, e1, ?_, i1.view, (authority_iff G _).mpr ⟨_, rfl, v1⟩⟩
+  rw [i1.data, recompose_eq]
+  simp [authText, List.append_assoc]
 
 /-- the model handle on the design's witness: replacing a shorter user info by a longer one and
 then setting the port edits the right places (this was finding F5) -/
